@@ -45,6 +45,8 @@ PROBES = [
     ("import-alias-as-field", {"m.emb": "import \"o.emb\" as imp\nstruct Foo:\n  0 [+1]  UInt  x\n  let a = imp\n",
                                "o.emb": "struct Baz:\n  0 [+1]  UInt  q\n"}, "crash"),
     ("module-attribute-reference", {"m.emb": "[foo: Bar.BAZ]\nenum Bar:\n  BAZ = 1\n"}, "crash"),
+    ("anonymous-bits-in-inline-struct", {"m.emb": "struct Foo:\n  0 [+4]  struct bar:\n    0 [+1]  bits:\n      0 [+1]  Flag  x\n"
+                                                  "    1 [+1]  UInt  y\n"}, "crash"),
 ]
 
 
@@ -269,21 +271,122 @@ def by_construction(ctx, case):
     return out
 
 
-def gen_case(rng, i, fault, big):
+def gen_case(sub_seed, i, fault, big):
     import random
-    sub = random.Random(rng.getrandbits(64))
-    g = gen_scope.Gen(sub, fault=fault, big=big)
+    g = gen_scope.Gen(random.Random(sub_seed), fault=fault, big=big)
     c = Case("gen:%d:%s" % (i, fault or "none"), dict(g.texts), "m.emb")
     c.gen = g
     return c
 
 
-def corpus_cases():
+def corpus_jobs():
     out = []
     for p in sorted(glob.glob(os.path.join(CORPUS, "*.json"))):
         d = json.load(open(p))
-        out.append(Case("corpus:" + os.path.basename(p), d["files"], d["main"]))
+        out.append(dict(label="corpus:" + os.path.basename(p), files=d["files"], main=d["main"], gen=None))
     return out
+
+
+class Rec:
+    """what a worker process records (same interface as the part of fw.Ctx used here)"""
+
+    def __init__(self):
+        self.counts, self.notes = {}, []
+
+    def count(self, key, n=1):
+        self.counts[key] = self.counts.get(key, 0) + n
+
+    def note(self, s):
+        self.notes.append(s)
+
+
+def work(job):
+    """One module set, in a worker process: generate (if asked), parse, translate, run the real
+    passes, label by construction.  Returns only plain data."""
+    rec = Rec()
+    res = dict(label=job["label"], files=job.get("files"), main=job.get("main"), gen=job.get("gen"),
+               ok=False, term=None, expected=None, status=None, nrefs=0, crash=None, violations=[],
+               fault=None, counts=rec.counts, notes=rec.notes, error=None)
+    try:
+        if job.get("gen") is not None:
+            sub_seed, i, fault, big = job["gen"]
+            c = gen_case(sub_seed, i, fault, big)
+            res["files"], res["main"] = c.files, c.main
+            res["fault"] = fault if c.gen.fault_applied else None
+            rec.count("fault:" + (fault if fault and c.gen.fault_applied else "none"))
+        else:
+            c = Case(job["label"], job["files"], job["main"])
+        ok = prepare(rec, c)
+        res["ok"], res["status"] = ok, c.status
+        if c.gen is not None and c.status == "parse-rejected":
+            rec.count("generator-syntax-rejected")
+            rec.note("generated module rejected by the parser (%s): %s" % (c.label, c.parse_errors[0][0].message[:200]))
+        if c.status == "parse-crash":
+            res["crash"] = ("parse", repr(c.parse_exception)[:300], "", type(c.parse_exception).__name__)
+        if c.ob is not None and c.ob.crash:
+            res["crash"] = c.ob.crash
+        if ok:
+            res["term"], res["expected"] = c.term, c.expected
+            res["nrefs"] = len(c.tr.refsA) + len(c.tr.frs)
+            if c.gen is not None:
+                res["violations"] = by_construction(rec, c)
+                res["checked"] = True
+    except Exception as ex:
+        res["error"] = (repr(ex), traceback.format_exc())
+    return res
+
+
+def run_jobs(jobs):
+    import multiprocessing
+    n = max(1, min(12, fw.NPROC - 2))
+    if len(jobs) < 4 or n == 1:
+        return [work(j) for j in jobs]
+    with multiprocessing.get_context("fork").Pool(n) as pool:
+        return pool.map(work, jobs, chunksize=4)
+
+
+def replay_of_res(res, **kw):
+    d = dict(kind="module", main=res["main"], files=res["files"], label=res["label"])
+    d.update(kw)
+    return d
+
+
+def crash_key_of(crash):
+    class _O:
+        pass
+    o = _O()
+    o.crash = crash
+    if crash[0] == "parse":
+        if crash[3] == "AssertionError" and "Unable to find corresponding type" in crash[1]:
+            return "desugar-crash-anonymous-bits-in-inline-struct"
+        return "front-end-crash-before-resolver:%s" % crash[3]
+    return crash_key(o)
+
+
+def absorb(ctx, results):
+    """merge worker results into ctx; returns the list of results that are ready for Coq"""
+    ready = []
+    for r in results:
+        for k, v in r["counts"].items():
+            ctx.count(k, v)
+        for n in r["notes"][:3]:
+            ctx.note(n)
+        if r["error"]:
+            ctx.count("harness-error")
+            ctx.obligation("harness handled %s" % r["label"], False)
+            ctx.violation("harness-crash", "check machinery crashed on %s: %s" % (r["label"], r["error"][0]),
+                          replay_of_res(r, traceback=r["error"][1]), found_input=False)
+            continue
+        if r["crash"]:
+            key = crash_key_of(r["crash"])
+            ctx.count("impl-crash:" + key)
+            ctx.violation(key, "the front end crashed in the resolver stage on %s: %s in %s (%s)"
+                          % (r["label"], r["crash"][1], r["crash"][2], r["crash"][0]),
+                          replay_of_res(r, exception=r["crash"][1], function=r["crash"][2], stage=r["crash"][0]),
+                          found_input=True)
+        if r["ok"]:
+            ready.append(r)
+    return ready
 
 
 def run(ctx):
@@ -298,70 +401,59 @@ def run(ctx):
                        "crashes on them (finding resolver-crash-module-attribute-reference)",
                        "the order in which references are visited is read from compiler.util.traverse_ir"]
     ctx.audit()
-    ctx.check_theorems("EmbossV.Scope.Properties_C12", "Scope/Properties_C12.v", expect_min=10)
+    ctx.check_theorems("EmbossV.Scope.Properties_C12", "Scope/Properties_C12.v", expect_min=20)
 
     t0 = time.time()
-    cases = corpus_cases()
+    jobs = corpus_jobs()
     for p in sorted(glob.glob(os.path.join(fw.REPO, "testdata", "*.emb"))):
         rel = os.path.relpath(p, fw.REPO)
-        cases.append(Case("testdata:" + rel, {}, rel))
-    n_gen = 900 if ctx.thorough() else 160
+        jobs.append(dict(label="testdata:" + rel, files={}, main=rel, gen=None))
+    n_gen = 900 if ctx.thorough() else 150
     faults = list(gen_scope.FAULTS)
     for i in range(n_gen):
         fault = None if ctx.rng.random() < 0.45 else faults[i % len(faults)]
-        try:
-            cases.append(gen_case(ctx.rng, i, fault, big=ctx.rng.random() < 0.3))
-        except Exception as ex:
-            ctx.note("generator failed (%s): %r" % (fault, ex))
-            ctx.count("generator-crash")
-            ctx.obligation("generator produced case %d" % i, False)
-            ctx.violation("harness-generator", "gen_scope crashed: %r" % (ex,), dict(kind="harness", traceback=traceback.format_exc()),
-                          found_input=False)
-    ready = []
-    for c in cases:
-        ok = prepare(ctx, c)
-        if c.gen is not None:
-            ctx.count("fault:" + (c.gen.fault if c.gen.fault and c.gen.fault_applied else "none"))
-            if c.status == "parse-rejected":
-                ctx.count("generator-syntax-rejected")
-                ctx.note("generated module rejected by the parser (%s): %s" % (c.label, c.parse_errors[0][0].message[:200]))
-        if c.ob is not None and c.ob.crash:
-            record_crash(ctx, c)
-        if ok:
-            ready.append(c)
+        jobs.append(dict(label="gen:%d:%s" % (i, fault or "none"),
+                         gen=(ctx.rng.getrandbits(64), i, fault, ctx.rng.random() < 0.3)))
+    results = run_jobs(jobs)
+    ready = absorb(ctx, results)
     ctx.extra["prepare_s"] = round(time.time() - t0, 1)
-    if sum(1 for c in cases if c.gen is not None and c.status == "parse-rejected") > n_gen // 10:
-        ctx.obligation("generator: at most 10% of the modules fail to parse", False)
+    n_syntax = sum(1 for r in results if r["gen"] is not None and r["status"] == "parse-rejected")
+    ctx.obligation("generator: at most 5%% of the %d modules fail to parse (%d did)" % (n_gen, n_syntax), n_syntax <= n_gen // 20)
+    if n_syntax > n_gen // 20:
         ctx.violation("harness-generator", "too many generated modules are syntactically invalid", dict(kind="harness"), found_input=False)
 
     # --- correspondence: model vs real passes -----------------------------------
-    coq_cases = [(c.term, c.expected, c) for c in ready]
+    coq_cases = [(r["term"], r["expected"], r) for r in ready]
     runner = fw.CoqCases(ctx, "scope", HEADER, "run_case", "case_eqb", "input", "(outcome1 * option outcome2)", shard=8)
     bad = runner.run(coq_cases)
     ctx.extra["coq_cases_s"] = round(time.time() - t0 - ctx.extra["prepare_s"], 1)
-    for c in ready:
-        nref = len(c.tr.refsA) + len(c.tr.frs)
-        ctx.case((c.label, sorted(c.files.items()), c.main), nontrivial=nref > 0,
-                 sample={"case": c.label, "references": nref, "implementation": c.status,
-                         "text": (c.files.get("m.emb", "") or c.main)[:400]})
-        ctx.count("references", nref)
+    for r in ready:
+        ctx.case((r["label"], sorted(r["files"].items()), r["main"]), nontrivial=r["nrefs"] > 0,
+                 sample={"case": r["label"], "references": r["nrefs"], "implementation": r["status"],
+                         "text": (r["files"].get("m.emb", "") or r["main"])[:400]})
+        ctx.count("impl:" + r["status"])
+        ctx.count("references", r["nrefs"])
     ctx.obligation("correspondence: model = resolve_symbols/resolve_field_references on %d module sets "
                    "(canonical name of every reference, or every error with kind/file/line/name/notes)" % len(ready), not bad)
-    bad_labels = {coq_cases[i][2].label: out for i, out in bad}
+    bad_labels = {coq_cases[i][2]["label"]: out for i, out in bad}
 
     # --- the property by construction (this is also the search) ------------------------
     flagged = set()
     n_checked = 0
-    for c in ready:
-        if c.gen is None:
+
+    def report(r):
+        for key, desc, extra in r["violations"]:
+            flagged.add(r["label"])
+            if key == "generator-registry":
+                ctx.violation("harness-generator", desc, replay_of_res(r, **extra), found_input=False)
+            else:
+                ctx.violation(key, desc + " [%s]" % r["label"], replay_of_res(r, fault=r["fault"], **extra), found_input=True)
+
+    for r in ready:
+        if r["gen"] is None:
             continue
         n_checked += 1
-        for key, desc, extra in by_construction(ctx, c):
-            flagged.add(c.label)
-            if key == "generator-registry":
-                ctx.violation("harness-generator", desc, replay_of(c, **extra), found_input=False)
-            else:
-                ctx.violation(key, desc + " [%s]" % c.label, replay_of(c, fault=c.gen.fault, **extra), found_input=True)
+        report(r)
     ctx.obligation("by construction: intended target = resolved canonical name, error iff the construction made the name "
                    "missing/duplicate/ambiguous, on %d generated module sets" % n_checked, not flagged)
 
@@ -369,30 +461,30 @@ def run(ctx):
         unexplained = [l for l in bad_labels if l not in flagged]
         found = bool(flagged)
         if unexplained and not found:
-            # search: more generated modules, property only (no Coq)
+            # search: more generated modules, the property only (no Coq)
             import random
             srng = random.Random(ctx.seed * 7919 + 12)
-            for i in range(1500 if ctx.thorough() else 400):
-                try:
-                    c = gen_case(srng, 100000 + i, faults[i % len(faults)] if i % 2 else None, big=i % 3 == 0)
-                except Exception:
+            sjobs = []
+            for i in range(2000 if ctx.thorough() else 600):
+                fault = faults[i % len(faults)] if i % 2 else None
+                sjobs.append(dict(label="search:%d:%s" % (i, fault or "none"), gen=(srng.getrandbits(64), 100000 + i, fault, i % 3 == 0)))
+            for r in run_jobs(sjobs):
+                if r["error"] or not r["ok"]:
                     continue
-                if not prepare(ctx, c) or c.ob.crash:
-                    continue
-                v = [x for x in by_construction(ctx, c) if x[0] != "generator-registry"]
+                v = [x for x in r["violations"] if x[0] != "generator-registry"]
                 if v:
                     key, desc, extra = v[0]
-                    ctx.violation(key, desc + " [%s]" % c.label, replay_of(c, fault=c.gen.fault, **extra), found_input=True)
+                    ctx.violation(key, desc + " [%s]" % r["label"], replay_of_res(r, fault=r["fault"], **extra), found_input=True)
                     found = True
                     break
         if not found:
             l = unexplained[0] if unexplained else list(bad_labels)[0]
-            c = [x for x in ready if x.label == l][0]
+            r = [x for x in ready if x["label"] == l][0]
             ctx.violation("scope-correspondence",
                           "Scope.Model.run_pass1/run_pass2 and symbol_resolver disagree on %s (%d module sets)" % (l, len(bad_labels)),
-                          replay_of(c, correspondence="EmbossV.Scope.Model.run_pass1/run_pass2 vs "
-                                    "symbol_resolver.resolve_symbols/resolve_field_references",
-                                    implementation=c.expected[:3000], model_outputs=bad_labels[l][:3000]), found_input=False)
+                          replay_of_res(r, correspondence="EmbossV.Scope.Model.run_pass1/run_pass2 vs "
+                                        "symbol_resolver.resolve_symbols/resolve_field_references",
+                                        implementation=r["expected"][:3000], model_outputs=bad_labels[l][:3000]), found_input=False)
 
     # --- fixed probes -------------------------------------------------------------------
     for key, files, what in PROBES:
@@ -403,10 +495,21 @@ def run(ctx):
             bound = ok and c.ob.errors1 is None
             rej = full_pipeline_rejects(c)
             ctx.extra["abbreviation_static_reference"] = {"resolver_binds_it": bool(bound), "full_compiler_rejects": rej}
-            ctx.obligation("witness of abbreviation_private_static_tail_refuted replayed: resolver binds Type.abbr", bool(bound))
+            ctx.obligation("witness of abbreviation_private_static_tail_refuted replayed: the real resolver binds Type.abbr "
+                           "(if it stops doing so the refuted clause must be re-examined)", bool(bound))
+            if not bound:
+                ctx.violation("refuted-witness-no-longer-replays", "the resolver no longer binds Foo.a; the model's refuted "
+                              "theorem abbreviation_private_static_tail_refuted no longer matches the implementation",
+                              replay_of(c, theorem="abbreviation_private_static_tail_refuted"), found_input=False)
             if rej is not True:
                 ctx.violation("abbreviation-visible-outside-structure", "Foo.a (abbreviation of Foo.apple) used from struct Bar is accepted",
                               replay_of(c), found_input=True)
+        elif c.status == "parse-crash":
+            crash = ("parse", repr(c.parse_exception)[:300], "", type(c.parse_exception).__name__)
+            k = crash_key_of(crash)
+            ctx.count("impl-crash:" + k)
+            ctx.violation(k, "the front end crashed before symbol resolution on %s: %s" % (c.label, crash[1]),
+                          replay_of(c, exception=crash[1]), found_input=True)
         elif c.ob is not None and c.ob.crash:
             record_crash(ctx, c)
         else:
